@@ -334,7 +334,7 @@ class Explorer(object):
         try:
             composed = bytes(v.compose())
         except Exception as e:  # noqa
-            self.viol('compose_fails', '', 'compose() of a reachable vector raises %s' % type(e).__name__, init, hist)
+            self.viol('compose_fails', '', 'compose() of a reachable vector raises %s' % core.ename(e), init, hist)
             return
         w = self.param.item_num_size
         if self.cls.__name__ == 'TlsHandshakeHelloRandomBytes':
@@ -353,7 +353,7 @@ class Explorer(object):
                 self.viol('roundtrip', '', 'parse(compose(vector)) differs from the vector', init, hist)
         except classes.documented_errors() as e:
             self.viol('roundtrip', '', 'compose() of a reachable vector is rejected by the parser: %s'
-                      % type(e).__name__, init, hist)
+                      % core.ename(e), init, hist)
         except Exception:  # noqa (C02's business)
             pass
 
